@@ -1,5 +1,5 @@
 //! Registry: which families of cases make up each check at each tier, and replay dispatch.
-use crate::alphabet::{Chars, Skeletons, Soup, Words, CONTEXTS, GAPS3, GAPS5, GAPS8, SIGMA, SIGMA_SMALL};
+use crate::alphabet::{Chars, LongTokens, Skeletons, Soup, TokenTails, Words, CONTEXTS, GAPS3, GAPS5, GAPS8, SIGMA, SIGMA_SMALL};
 use crate::cfg::{self, Cfg, C_QUICK};
 use crate::grammar::Grammar;
 use crate::oracles as o;
@@ -212,6 +212,28 @@ impl NearMisses {
     }
 }
 
+impl TextSource for TokenTails {
+    fn name(&self) -> String {
+        "token-tails(9 forms x every pair of Gamma chars at the end of the body)".into()
+    }
+    fn len(&self) -> u64 {
+        TokenTails::len(self)
+    }
+    fn get(&self, idx: u64, buf: &mut String) {
+        TokenTails::get(self, idx, buf)
+    }
+}
+impl TextSource for LongTokens {
+    fn name(&self) -> String {
+        format!("long-tokens(12 kinds x len<={} x 5 alignments x 14 delimiters)", self.max_len)
+    }
+    fn len(&self) -> u64 {
+        LongTokens::len(self)
+    }
+    fn get(&self, idx: u64, buf: &mut String) {
+        LongTokens::get(self, idx, buf)
+    }
+}
 impl TextSource for Skeletons {
     fn name(&self) -> String {
         format!("directive-skeletons(len<={})", self.n)
@@ -1031,6 +1053,7 @@ pub fn families(check: &str, tier: &str) -> Vec<Box<dyn Family>> {
                     tf("c01", lit_texts(2), &C_QUICK[..2], or_c01()),
                     tf("c01", soup(2, GAPS8, &["%", "begin % end"]), &C_QUICK[..2], or_c01()),
                     tf("c01", large_texts(), &C_QUICK[..2], or_c01()),
+                    tf("c01", TokenTails, &C_QUICK[..2], or_c01()),
                 ]
             } else {
                 vec![
@@ -1043,6 +1066,8 @@ pub fn families(check: &str, tier: &str) -> Vec<Box<dyn Family>> {
                     seed_mutations("c01", &all_seeds(), &C_QUICK[..2], f_c01),
                     tf("c01", soup(2, GAPS8, CONTEXTS), &C_QUICK, or_c01()),
                     tf("c01", large_texts(), &C_QUICK, or_c01()),
+                    tf("c01", TokenTails, &C_QUICK, or_c01()),
+                    tf("c01", LongTokens { max_len: 300 }, &C_QUICK[..2], or_c01()),
                 ]
             }
         }
@@ -1098,6 +1123,8 @@ pub fn families(check: &str, tier: &str) -> Vec<Box<dyn Family>> {
                     seed_mutations("c04", &all_seeds(), &C_QUICK[1..2], f_c04),
                     tf("c04", soup(2, GAPS8, &["%", "begin % end"]), &C_QUICK[..2], or_c04()),
                     tf("c04", large_texts(), &C_QUICK[..2], or_c04()),
+                    tf("c04", TokenTails, &one, or_c04()),
+                    tf("c04", LongTokens { max_len: 100 }, &one, or_c04()),
                     tf("c04passes", Skeletons { n: 6 }, &one, Box::new(|x, c, ctx| o::c04_passes(x, c, ctx))),
                     tf("c04cursors", soup(2, GAPS3, &["%", "begin % end"]), &one, or_c04_cursors()),
                     Box::new(ScalingFamily { sizes: vec![1, 2, 4, 8, 16, 32, 64], cfgs: vec![cfg::DEFAULT, C_QUICK[1]] }),
@@ -1235,6 +1262,7 @@ pub fn families(check: &str, tier: &str) -> Vec<Box<dyn Family>> {
                     seed_texts("c15", &all_seeds(), &c15cfg[..2], big(false)),
                     tf("c15", lits(1), &c15cfg, small(false)),
                     tf("c15", Texts { name: "asm-bodies".into(), items: c07_asm_texts(false) }, &c15cfg[..2], small(false)),
+                    tf("c15", TokenTails, &c15cfg[..2], small(false)),
                 ]
             } else {
                 vec![
@@ -1245,6 +1273,7 @@ pub fn families(check: &str, tier: &str) -> Vec<Box<dyn Family>> {
                     seed_texts("c15", &all_seeds(), &C_QUICK, big(true)),
                     tf("c15", lits(2), &c15cfg, small(false)),
                     tf("c15", Texts { name: "asm-bodies".into(), items: c07_asm_texts(true) }, &c15cfg, small(false)),
+                    tf("c15", TokenTails, &c15cfg, small(false)),
                 ]
             }
         }
@@ -1259,6 +1288,7 @@ pub fn families(check: &str, tier: &str) -> Vec<Box<dyn Family>> {
                     tf("c08", soup(2, GAPS8, &["%", "begin % end"]), &C_QUICK[..3], or_c08(false)),
                     deep_variants("c08eof", &g(1), 1, 12, &C_QUICK[..3], f_c08_eof),
                     tf("c08", large_texts(), &C_QUICK[..2], or_c08(false)),
+                    tf("c08", TokenTails, &C_QUICK[..2], or_c08(false)),
                 ]
             } else {
                 vec![
@@ -1386,6 +1416,8 @@ pub fn families(check: &str, tier: &str) -> Vec<Box<dyn Family>> {
                     tf("c13", KeywordCases, &one, or_c13()),
                     tf("c13", near(), &one, or_c13()),
                     tf("c13", lit_texts(1), &one, or_c13()),
+                    tf("c13", LongTokens { max_len: 100 }, &one, or_c13()),
+                    tf("c13", TokenTails, &one, or_c13()),
                     prog_variants("c13", &g(1), 1, &one, vo_cd, f_c13),
                     seed_texts("c13", &all_seeds(), &one, f_c13),
                 ]
@@ -1398,6 +1430,8 @@ pub fn families(check: &str, tier: &str) -> Vec<Box<dyn Family>> {
                     tf("c13", KeywordCases, &one, or_c13()),
                     tf("c13", near(), &one, or_c13()),
                     tf("c13", lit_texts(2), &one, or_c13()),
+                    tf("c13", LongTokens { max_len: 300 }, &one, or_c13()),
+                    tf("c13", TokenTails, &one, or_c13()),
                     prog_variants("c13", &g(2), 2, &one, vo_cd, f_c13),
                     seed_texts("c13", &all_seeds(), &C_QUICK, f_c13),
                 ]
